@@ -410,7 +410,7 @@ func main() {
 		return
 	}
 	rep = report.New("C14", tier, "model_checking")
-	rep.Rule = "E1: 15 polygonal shapes (boxes, triangles, L, C, pentagon, holes in both windings and closed spelling, multi-polygons, island in hole) as Polygon / MultiPolygon / *Bounds x every simple open polyline of 2 and 3 vertices over the lattice (i+.37, j+.41), i,j in {-1,1,3,5,7} (thorough: -1..7), plus two-member multi-line strings; the same pairs again with both operands rotated by 30 degrees and scaled by 1.7 (irrational coordinates, lengths scale by 1.7); pairs not in general position (exact test) or with a piece shorter than 1e-7 are skipped and counted. Oracle: reference inside length from exact crossing tests + even-odd classification of every piece; Length(result) equal (rel 1e-9); every result vertex within 1e-9 of the line and inside or on the polygon; empty iff the reference length is 0; the polygon argument is not modified. Non-trivial = lines partly inside."
+	rep.Rule = "E1: 15 polygonal shapes (boxes, triangles, L, C, pentagon, holes in both windings and closed spelling, multi-polygons, island in hole) as Polygon / MultiPolygon / *Bounds x every simple open polyline of 2 and 3 vertices over the lattice (i+.37, j+.41), i,j in {-1,1,3,5,7} (thorough: -1..7), plus two-member multi-line strings; the same pairs again with both operands rotated by 30 degrees and scaled by 1.7 (irrational coordinates, lengths scale by 1.7); pairs not in general position (exact test) or with a piece shorter than 1e-7 are skipped and counted. Oracle: reference inside length from exact crossing tests + even-odd classification of every piece; Length(result) equal (rel 1e-9); every result vertex within 1e-9 of the line and inside or on the polygon; empty iff the reference length is 0; the polygon argument is not modified; clip sequences on one shared polygon value, also after the value has been moved in place (history). Non-trivial = lines partly inside."
 	var lattice []exact.Pt
 	step := int64(2)
 	if tier == "thorough" {
@@ -495,6 +495,55 @@ func main() {
 				nClips++
 				if math.Abs(got-want) > 1e-9*math.Max(1, want) {
 					rep.Violation(fmt.Sprintf("LineString.Clip|%s|%s|length-differs-after-earlier-clips-on-the-same-polygon", ct, s.Name), map[string]interface{}{"shape": si, "line": lines[i], "got": got, "want": want, "clips_before": i / 3})
+					break
+				}
+			}
+			// history with an in-place edit: the same polygon value is moved by
+			// (+2, 0) in place and clipped against again; the answers must be those
+			// for the moved polygon
+			switch t := pg.(type) {
+			case geom.Polygon:
+				for a := range t {
+					for b := range t[a] {
+						t[a][b].X += 2
+					}
+				}
+			case geom.MultiPolygon:
+				for _, q := range t {
+					for a := range q {
+						for b := range q[a] {
+							q[a][b].X += 2
+						}
+					}
+				}
+			case *geom.Bounds:
+				t.Min.X += 2
+				t.Max.X += 2
+			}
+			r2 := make(exact.Region, len(r))
+			for a, ring := range r {
+				for _, v := range ring {
+					r2[a] = append(r2[a], exact.Pt{X: v.X + 2*scale, Y: v.Y})
+				}
+			}
+			fr2 := exact.ToF(r2, scale)
+			for i := 1; i < n2; i += 5 {
+				if !generalPosition(r2, lines[i]) {
+					continue
+				}
+				want, ok := insideLength(r2, fr2, lines[i])
+				if !ok {
+					continue
+				}
+				ls := geom.LineString{f(lines[i][0]), f(lines[i][1])}
+				var got float64
+				if p := try(func() { got = ls.Clip(pg).Length() }); p != "" {
+					rep.Violation(fmt.Sprintf("LineString.Clip|%s|%s|panic-after-in-place-edit", ct, s.Name), p)
+					break
+				}
+				nClips++
+				if math.Abs(got-want) > 1e-9*math.Max(1, want) {
+					rep.Violation(fmt.Sprintf("LineString.Clip|%s|%s|stale-answer-after-in-place-edit-of-the-polygon", ct, s.Name), map[string]interface{}{"shape": si, "line": lines[i], "got": got, "want": want})
 					break
 				}
 			}
